@@ -133,8 +133,9 @@ def load_module(hashed_grammar, file_io, cache_path=None):
 
 
 def _load_from_file_system(hashed_grammar, path, p_time, cache_path=None):
-    cache_path = _get_hashed_path(hashed_grammar, path, cache_path=cache_path)
     try:
+        # This may have to create the cache directory, which can fail.
+        cache_path = _get_hashed_path(hashed_grammar, path, cache_path=cache_path)
         if p_time > os.path.getmtime(cache_path):
             # Cache is outdated
             return None
